@@ -16,7 +16,7 @@ from vmon.res import Result, exc_name
 
 ID = "C12"
 LEVEL = "exploration"
-CASES = {"quick": 1600, "thorough": 30000}
+CASES = {"quick": 1600, "thorough": 180000}
 RULE = ("seeded random frames (>=1 row, >=2 columns; bool/int/float/str/date/datetime (+object, fixed-width, timedelta, float32 for "
         "pickle/npz), NA in every position incl. first row, Unicode, delimiter/quote/newline inside strings) and lists of dicts, written and "
         "read back over {pickle,npz,parquet,csv,json} x {plain,.gz,.bz2,.xz} x {sep, header, encoding, compress, compression}; non-trivial "
